@@ -44,26 +44,38 @@ func Plan(out string, seed uint64, tier string, scenario string, count int, epoc
 		// 4 chains: basic + three others rotating with the seed
 		others := []string{}
 		for _, n := range ScenarioOrder {
-			if n != "basic" {
+			if n != "basic" && n != "genesis" {
 				others = append(others, n)
 			}
 		}
-		names = []string{"basic"}
-		off := int(seed % uint64(len(others)))
-		n := 3
-		if count > 0 {
-			n = count - 1
+		names = []string{"basic", "all_ops_one_block"}
+		var rest []string
+		for _, n := range others {
+			if n != "all_ops_one_block" {
+				rest = append(rest, n)
+			}
+		}
+		off := int(seed % uint64(len(rest)))
+		n := 2
+		if count > 2 {
+			n = count - 2
 		}
 		for i := 0; i < n; i++ {
-			names = append(names, others[(off+i*3)%len(others)])
+			names = append(names, rest[(off+i*3)%len(rest)])
 		}
 	} else {
 		n := 60
 		if count > 0 {
 			n = count
 		}
+		var order []string
+		for _, n := range ScenarioOrder {
+			if n != "genesis" {
+				order = append(order, n)
+			}
+		}
 		for i := 0; i < n; i++ {
-			names = append(names, ScenarioOrder[i%len(ScenarioOrder)])
+			names = append(names, order[i%len(order)])
 		}
 	}
 	perScenario := map[string]int{}
@@ -90,7 +102,27 @@ func Plan(out string, seed uint64, tier string, scenario string, count int, epoc
 		if !quick {
 			pr.Genesis = 9
 		}
+		if quick && scenario == "" {
+			switch i {
+			case 0:
+				pr.ForkBias = "late"
+			case 1:
+				pr.ForkBias = "early"
+			}
+		}
 		plan = append(plan, pr)
+	}
+	if scenario == "" {
+		// C13: genesis-only directories over three presets (minimal + two tiny)
+		ng := 9
+		if !quick {
+			ng = 63
+		}
+		for k := 0; k < 3; k++ {
+			r := master.Fork()
+			plan = append(plan, ChainParams{Scenario: Scenarios["genesis"], Dir: ChainDir(out, "genesis", k), Name: fmt.Sprintf("genesis-%d", k),
+				Seed: seed, Rng: r, Epochs: 8, Plain: k == 0, Genesis: ng, GenesisOnly: true})
+		}
 	}
 	return plan
 }
@@ -257,8 +289,29 @@ func Summarize(results []ChainResult, seed uint64, tier string, secs float64) ma
 		intended["failed_at_intended_rule"] = other["corrupt_intent_hit"]
 		intended["share"] = float64(other["corrupt_intent_hit"]) / float64(n)
 	}
+	// every operation kind in every fork where it exists
+	var missing []string
+	need := map[string][]string{
+		"phase0":    {"att", "pslash", "aslash", "deposit", "exit"},
+		"altair":    {"att", "pslash", "aslash", "deposit", "exit", "sync_bits"},
+		"bellatrix": {"att", "pslash", "aslash", "deposit", "exit", "sync_bits", "payload"},
+		"capella":   {"att", "pslash", "aslash", "deposit", "exit", "sync_bits", "payload", "blschange", "withdrawal_partial", "withdrawal_full"},
+		"deneb":     {"att", "pslash", "aslash", "deposit", "exit", "sync_bits", "payload", "blschange", "withdrawal_partial", "withdrawal_full", "blob"},
+	}
+	for _, f := range ForkNames {
+		if perFork[f]["blocks"] == 0 {
+			missing = append(missing, f+".blocks")
+			continue
+		}
+		for _, op := range need[f] {
+			if perFork[f][op] == 0 {
+				missing = append(missing, f+"."+op)
+			}
+		}
+	}
 	sort.Strings(problems)
 	return map[string]interface{}{
+		"missing_fork_ops": missing,
 		"seed": seed, "tier": tier, "seconds": secs, "bytes": bytes, "chains": chains,
 		"per_fork": perFork, "counts": other, "problems": problems, "unmet_expectations": unmet,
 		"intended_rule": intended,
